@@ -340,6 +340,9 @@ where
                 Ok(())
             }
             DataToken::SequenceEnd => {
+                // the header of the sequence or encapsulated pixel data element
+                // does not apply to anything that comes after it
+                self.last_de = None;
                 // only write if it's an unknown length sequence
                 if let Some(seq_start) = self.seq_tokens.pop() {
                     if seq_start.typ == SeqTokenType::Sequence && seq_start.len.is_undefined() {
